@@ -1,11 +1,14 @@
 package main
 
 import (
+	"encoding/json"
 	"fmt"
 	"go/ast"
 	"go/token"
 	"go/types"
 	"net"
+	"os"
+	"path/filepath"
 	"sort"
 	"strconv"
 	"strings"
@@ -87,6 +90,12 @@ func NewEngine(repo, verif string) (*Engine, error) {
 	}
 	for _, n := range e.contracts.inlineExtern {
 		e.inlineExtern[n] = true
+	}
+	if data, err := os.ReadFile(filepath.Join(verif, "baseline_shapes.json")); err == nil && os.Getenv("GOVC_NO_REBIND") == "" {
+		base := map[string]Shape{}
+		if json.Unmarshal(data, &base) == nil {
+			e.rebindContracts(base)
+		}
 	}
 	e.computeEscapes()
 	if err := e.indexGuards(); err != nil {
@@ -912,6 +921,7 @@ func (e *Engine) resultTypeOf(key string) (types.Type, bool) {
 // callee preconditions, safety side conditions) that no longer discharge mean "the proof needs
 // maintenance", not "the property is violated".
 type Shape struct {
+	Params   []string `json:"params"`
 	Loops    int      `json:"loops"`
 	Closures int      `json:"closures"`
 	NParams  int      `json:"nparams"`
@@ -928,6 +938,10 @@ func (e *Engine) shapeOf(fn *ssa.Function) Shape {
 		sh.FreeVars = append(sh.FreeVars, fv.Name())
 	}
 	sort.Strings(sh.FreeVars)
+	sh.Params = []string{}
+	for _, p := range fn.Params {
+		sh.Params = append(sh.Params, p.Name())
+	}
 	return sh
 }
 
@@ -951,4 +965,135 @@ func sameShape(a, b Shape) bool {
 		}
 	}
 	return true
+}
+
+// rebindContracts lets a contract follow the function it was written for. The baseline records, for the
+// unchanged tree, which variables each function under contract captures and which parameters it has.
+// If the function now found under a contract's key does not have that signature (closures renumbered
+// because one was added or removed, a closure turned into a named function, a function renamed), the
+// contract is re-bound to the unique function of the same package / enclosing function that does;
+// if there is none, the contract is detached and everything it would have decided is undecided.
+// Re-binding is sound: a contract attached to the wrong function only makes obligations fail.
+func (e *Engine) rebindContracts(base map[string]Shape) {
+	nameSet := func(params, free []string) string {
+		all := append(append([]string{}, params...), free...)
+		sort.Strings(all)
+		return strings.Join(all, ",")
+	}
+	matches := func(b Shape, fn *ssa.Function) bool {
+		if fn == nil || len(fn.Blocks) == 0 {
+			return false
+		}
+		c := e.shapeOf(fn)
+		if len(c.FreeVars) != len(b.FreeVars) || c.NParams != b.NParams {
+			return false
+		}
+		for i := range c.FreeVars {
+			if c.FreeVars[i] != b.FreeVars[i] {
+				return false
+			}
+		}
+		return true
+	}
+	rootOf := func(key string) string {
+		if i := strings.Index(key, "$"); i >= 0 {
+			return key[:i]
+		}
+		return key
+	}
+	claimed := map[*ssa.Function]bool{}
+	var pending []string
+	for _, key := range sortedKeys(e.contracts.funcs) {
+		fc := e.contracts.funcs[key]
+		if fc.Assumed {
+			continue
+		}
+		b, ok := base[key]
+		if !ok {
+			continue
+		}
+		if fn := e.fnByKey[key]; matches(b, fn) {
+			claimed[fn] = true
+			continue
+		}
+		pending = append(pending, key)
+	}
+	if len(pending) == 0 {
+		return
+	}
+	pendingSet := map[string]bool{}
+	for _, k := range pending {
+		pendingSet[k] = true
+	}
+	var fns []*ssa.Function
+	for _, fn := range e.fnByKey {
+		fns = append(fns, fn)
+	}
+	sort.Slice(fns, func(i, j int) bool { return rawFnName(fns[i]) < rawFnName(fns[j]) })
+	for _, key := range pending {
+		fc := e.contracts.funcs[key]
+		b := base[key]
+		want := nameSet(b.Params, b.FreeVars)
+		pkg := key
+		if i := strings.Index(pkg, "."); i >= 0 {
+			pkg = pkg[:i]
+		}
+		var cands []*ssa.Function
+		for _, g := range fns {
+			if claimed[g] || !e.isRepoFn(g) || len(g.Blocks) == 0 {
+				continue
+			}
+			raw := rawFnName(g)
+			if !strings.HasPrefix(raw, pkg+".") {
+				continue
+			}
+			if other := e.contracts.funcs[raw]; other != nil && !pendingSet[raw] {
+				continue // has a contract of its own that fits it
+			}
+			if strings.Contains(raw, "$") && rootOf(raw) != rootOf(key) {
+				continue // a closure of some other function
+			}
+			if g.Signature.Results().Len() != b.Results {
+				continue
+			}
+			sh := e.shapeOf(g)
+			if nameSet(sh.Params, sh.FreeVars) == want {
+				cands = append(cands, g)
+			}
+		}
+		if len(cands) == 1 {
+			g := cands[0]
+			claimed[g] = true
+			fc.Rebound = rawFnName(g)
+			fnNameOverride[g] = key
+			if len(fc.Params) > 0 {
+				sh := e.shapeOf(g)
+				same := len(sh.Params) == len(b.Params)
+				for i := 0; same && i < len(sh.Params); i++ {
+					same = sh.Params[i] == b.Params[i]
+				}
+				if !same {
+					fc.Params = nil // the names now denote parameters / captured variables by name
+				}
+			}
+		} else {
+			fc.Detached = true
+		}
+	}
+	// rebuild the function table under the (possibly overridden) names
+	nb := map[string]*ssa.Function{}
+	for _, fn := range fns {
+		nb[qualFnName(fn)] = fn
+	}
+	for _, key := range pending {
+		if e.contracts.funcs[key].Detached {
+			if fn := nb[key]; fn != nil && !claimed[fn] {
+				// the function now found under this key is not the one the contract describes
+				delete(nb, key)
+				nb[key+"~unmatched"] = fn
+				fnNameOverride[fn] = key + "~unmatched"
+			}
+		}
+	}
+	e.fnByKey = nb
 }
